@@ -31,6 +31,8 @@ ATOMS = [
     (b'\x7f', 'raw-7f'), (b'\x80', 'raw-80'), (b'\xff', 'raw-ff'), (b'[', 'lbracket'), (b']', 'rbracket'),
     (b'-', 'minus'), (b'\t', 'raw-tab'), (b'\\z\n  ', 'esc-z-newline'), (b'\\z\r\n\t', 'esc-z-crlf'),
     (b'\\\r\n', 'esc-newline-crlf'), (b'\\\r', 'esc-newline-cr'),
+    # an escaped backslash followed by the digits of the escapes a writer pads (\\0, \\14, \\15): text, not an escape
+    (b'\\\\0', 'esc-backslash-0'), (b'\\\\14', 'esc-backslash-14'), (b'\\\\15', 'esc-backslash-15'), (b'0', 'digit-0'),
 ]
 
 
